@@ -167,6 +167,12 @@ def prepare_scratch(scratch, files):
     dst = os.path.join(scratch, "kira")
     subprocess.check_call(["rsync", "-a", "--delete", "--exclude", "target", KIRA + "/", dst + "/"])
     shutil.copy(os.path.join(REPO, "Cargo.lock"), os.path.join(dst, "Cargo.lock"))
+    # glam's SSE2 code path makes Kani report spurious "simd_mul would overflow" failures on float lanes;
+    # its scalar-math feature computes the same products lane by lane (DESIGN.md, C15)
+    ct = open(os.path.join(dst, "Cargo.toml")).read()
+    ct2 = ct.replace('features = ["mint"]', 'features = ["mint", "scalar-math"]', 1)
+    if ct2 != ct:
+        open(os.path.join(dst, "Cargo.toml"), "w").write(ct2)
     with open(os.path.join(dst, "Cargo.toml"), "a") as f:
         f.write("\n[workspace]\n\n[lints.rust]\nunexpected_cfgs = { level = \"allow\", check-cfg = ['cfg(kani)', 'cfg(kira_verif)', 'cfg(kv_native)'] }\n")
     modmap = {}
